@@ -5,24 +5,41 @@ CONFIG = dict(
               "+ differential correspondence with the real PlayerMgr on a real NodeService in a synctest bubble "
               "+ the property monitor executed on the implementation's own acknowledgements and return values",
     level_text="Machine-checked proof in Lean 4 that, for every history of login requests, closed reports, logic notifications, logout and "
-               "line-switch requests, offline replies, ticks and clock advances (and every choice of the kick-wait expiry scan), the model of "
-               "the centre's PlayerMgr never authorises a fresh load while an earlier load of the account is live, reconnects only a logged-in "
-               "character whose connection was reported closed, never accepts a transaction while another holds the account within its time "
-               "limit, answers each login request at most once, and releases the account when a time limit passes. The model is tied to the Go "
-               "code on every run by executing both on generated histories (virtual time across the 30 s / 2 min / 3 min / 5 min / 30 min limits) "
-               "and comparing acknowledgements, return values, kick/offline requests and the per-account record (state, time limits, lock, "
-               "connection, parked login); the property monitor is evaluated on what the implementation answered.",
-    level_note="Trusted: Lean kernel, harness/driver line protocol and canonicalisation, the reflect-based record probe (fields located by type/shape, `?` when unresolved) and the one-line overlay calling the periodic update. The theorems are "
-               "about the model; the differential run ties it to the code on sampled and (thorough) bounded-exhaustive histories only. Not driven: "
-               "the service's own 30 s request timeout for an unanswered offline request (equivalent to an error reply, which is driven), and a scan "
-               "finding two expired parked logins at once (Go map order decides which is dropped; the theorems cover every choice).",
+               "line-switch requests, offline replies, ticks, clock advances and clock advances with the 1 s update timer running (and every "
+               "choice of the kick-wait expiry scan), the model of the centre's PlayerMgr never authorises a fresh load while an earlier load of "
+               "the account is live, reconnects only a logged-in character whose connection was reported closed, never accepts a transaction "
+               "while another holds the account within its time limit, answers each login request at most once - and every request is answered, "
+               "still parked, or was parked and dropped by the 30 s expiry scan, nothing else loses one - and releases the account when a time "
+               "limit passes (by an explicit update or by the first timer firing after the limit). Also proved: what a passed limit does NOT "
+               "release (a line switch that never ends blocks logins and line switches of the account for good). The model is tied to the Go "
+               "code on every run by executing both on generated histories (virtual time across the 1 s / 3 s / 30 s / 2 min / 3 min / 5 min / "
+               "30 min limits; a third of the histories run with the real timer registered by PlayerMgr.Start) and comparing acknowledgements, "
+               "return values, kick/offline requests and the per-account record (state, time limits, lock, connection, parked login); the "
+               "property monitor (which states the time limits on its own; the proof needs them equal to the model's) is evaluated on what the "
+               "implementation answered.",
+    level_note="Trusted: Lean kernel, harness/driver line protocol and canonicalisation, the reflect-based record probe (fields located by type/shape, `?` "
+               "when unresolved - counted as probe.unresolved.* in the generator histogram) and the one-line overlay calling the periodic update "
+               "in the histories that do not run the timer. The theorems are about the model; the differential run ties it to the code on sampled "
+               "and bounded-exhaustive histories only. Not driven: the service's own 30 s request timeout for an unanswered offline request "
+               "(equivalent to an error reply, which is driven), and a scan finding two expired parked logins at once (Go map order decides which "
+               "is dropped; the theorems cover every choice). NOT proved, and not true of the code without the environment assumptions listed: "
+               "'two game-logic instances never coexist' (witness theorem late_logined_then_second_load: a logined report arriving after the "
+               "2 min expiry is ignored and a second load is authorised) and 'previous connection closed' per connection (witness "
+               "stale_closed_report_unbinds_current_connection: a closed report carries only the account id). 'Refused until the time limit "
+               "passes' is proved as refusal while held plus release of logout (always), line switch and reconnect (for a logged-in record); "
+               "unfinished_switch_blocks_account shows that an unfinished line switch is never released for logins.",
     lean_targets=["Cell2v.Props.C18", "modeld_c18"],
     driver="modeld_c18",
     driver_root="Cell2v.Driver.C18",
     audit="Audit/C18.lean",
     required_theorems=["history_accepted", "fresh_load_exclusive", "live_load_has_record", "reconnect_only_logined_and_closed",
                        "transactions_never_overlap", "refused_while_held", "login_answered_at_most_once", "timeouts_release",
-                       "expired_login_is_released", "expired_logout_is_released"],
+                       "expired_login_is_released", "expired_logout_is_released",
+                       "login_answered_parked_or_expired", "login_ids_issued", "forgotten_only_when_expired", "parked_login_answered_when_run",
+                       "timeouts_release_switch", "timeouts_release_reconnect", "unfinished_switch_blocks_account",
+                       "timer_releases_expired_login", "timer_releases_expired_logout", "timer_firings",
+                       "never_refused_without_holder", "refusedNoHolder_meaning_ack", "refusedNoHolder_meaning_switch",
+                       "logined_without_record_ignored", "late_logined_then_second_load", "stale_closed_report_unbinds_current_connection"],
     harness_pkg="./c18",
     go_flags=["-overlay=/verif/harness/c18/overlay/overlay.json"],
     mode="diff",
@@ -30,35 +47,48 @@ CONFIG = dict(
     runs={
         "quick": [dict(name="main", env={"VERIF_N": "5000"}, timeout=240),
                   dict(name="exh3", test="TestExhaustive", env={"VERIF_DEPTH": "3"}, timeout=240),
-                  dict(name="reach5", test="TestReachable", env={"VERIF_DEPTH": "5", "VERIF_MAXOPS": "200000"}, timeout=240)],
+                  dict(name="reach5", test="TestReachable", env={"VERIF_DEPTH": "5", "VERIF_MAXOPS": "200000"}, timeout=240),
+                  dict(name="reachT5", test="TestReachable", env={"VERIF_DEPTH": "5", "VERIF_MAXOPS": "200000", "VERIF_TIMER": "1"}, timeout=240)],
         "thorough": [dict(name="main", env={"VERIF_N": "40000"}, timeout=800),
                      dict(name="seed2", env={"VERIF_N": "20000"}, seed_offset=1000, timeout=800),
                      dict(name="exh5", test="TestExhaustive", env={"VERIF_DEPTH": "5"}, timeout=850),
-                     dict(name="reach8", test="TestReachable", env={"VERIF_DEPTH": "8", "VERIF_MAXOPS": "2500000"}, timeout=850)],
+                     dict(name="reach8", test="TestReachable", env={"VERIF_DEPTH": "8", "VERIF_MAXOPS": "2500000"}, timeout=850),
+                     dict(name="reachT6", test="TestReachable", env={"VERIF_DEPTH": "6", "VERIF_MAXOPS": "1200000", "VERIF_TIMER": "1"}, timeout=850)],
     },
     trivial=r"^(ok.*|bad-op|refused|nondet|none|ret=- acks= kicks= offs= \| - \| - \| - \| nc=\d+ np=0 nt=0)$",
     rule="histories generated from one PRNG (VERIF_SEED): 1-2 accounts (a third one rarely) x 2-3 connections on two front-ends (plus, rarely, an "
          "unknown front-end, net id 0, an unknown logic server); ops = login (kick on/off), closed report, logined, re-online, logout request, logout done, "
-         "abnormal logout, line switch begin/end, offline reply (ok/error), tick, clock advance aimed at just before / at / just after each of the "
+         "abnormal logout, line switch begin/end, offline reply (ok/error), tick, clock advance (in a third of the histories: with the real 1 s timer of "
+         "PlayerMgr.Start running, `reset timer=1` / `advt`, a quarter of those advances landing 1 ms before / on / 1 ms after a firing) aimed at just before / at / just after each of the "
          "3 s / 30 s / 2 min / 3 min / 5 min / 30 min limits (the deadlines the implementation currently shows, or counted from the instants "
          "something with a limit started); ~1% malformed lines (unknown op, account out of range, missing fields); 6-25 ops per history; "
          "plus every op sequence of length 3 (quick) / 5 (thorough) over a 14-op alphabet for 1 account x 2 connections, and a breadth-first search "
-         "that tries each of 21 ops (incl. advances to 1 ms before each limit) from every distinct centre state reachable within 5 (quick) / 8 (thorough) ops; "
+         "that tries each of 21 ops (incl. advances to 1 ms before each limit) from every distinct centre state reachable within 5 (quick) / 8 (thorough) ops, "
+         "and the same search with the timer running (19 ops, advances that stop just before / on a firing) within 5 (quick) / 6 (thorough) ops; "
          "a case is non-trivial when "
          "the implementation's observation shows an answer, a return value, a request or a record; distinct = distinct (op, observation) pairs",
     trusted_base=[
         "Lean 4.33.0 kernel; axioms of every property theorem audited on each run (allowed: propext, Classical.choice, Quot.sound)",
         "hand-written model lean/Cell2v/Model/Center.lean tied to the Go code by the differential run of this check (harness/c18 + modeld_c18)",
-        "property monitor lean/Cell2v/Spec/C18.lean (the statement of the property on observable histories)",
-        "overlay harness/c18/overlay/export_verif.go: one method calling the unexported periodic update; the per-account record is read through exported "
+        "property monitor lean/Cell2v/Spec/C18.lean (the statement of the property on observable histories; it shares the operation/event types and the "
+        "timer's firing instants with the model, states the time limits itself)",
+        "overlay harness/c18/overlay/export_verif.go: one method calling the unexported periodic update (op tick; the histories started by `reset timer=1` "
+        "call PlayerMgr.Start instead and let the real timer manager of the service call it; the timers Start registered are found in the timer manager's "
+        "sync.Map - located by type - and cancelled at the next reset); the per-account record is read through exported "
         "API (GetState, FrontId, NetId, GetLogicId) and, for the lock / limits / parked task, with reflect+unsafe by field type and shape (never by name); "
         "an unrecognised shape degrades to `?` in the observation (model echoes it), it does not fail the check",
         "go1.26 testing/synctest virtual clock; proto.actor local delivery; harness canonicalisation (times relative to the case start, kicks sorted)",
     ],
     assumptions=[
         "entry points run on the owning service's goroutine (the harness posts them to its scheduler, as the actor runtime does)",
-        "the periodic update is called explicitly (op tick) instead of by the 1 s timer registered in PlayerMgr.Start",
+        "the periodic update is called explicitly (op tick) in two thirds of the histories, by the 1 s timer registered in PlayerMgr.Start in the rest "
+        "(the model assumes what the run confirms: firings exactly every 1000 ms of virtual time from Start, the update reading the clock at the firing)",
         "front-ends answer kick requests at once; the logic server answers (or fails) an offline request before the service's 30 s request timeout",
         "login request ids are per account; account ids 1..3",
+        "environment, not enforced by the centre: a logic instance whose login was not confirmed (logined) within 2 min of the authorisation, or whose "
+        "logout did not complete within 30 min, has discarded itself and stays silent ('logic frees itself', comment in onLoginningTimeout) - needed to "
+        "read 'no double load' as 'no two logic instances'; the logic server's enter flow has a TODO where it would do so",
+        "environment: a front-end reports a closed connection only for the connection currently bound to the account (the report carries the account id only)",
+        "environment: a line switch that was accepted is ended (OnSwitchLineEnd) or followed by a logout request; otherwise the account stays blocked",
     ],
 )
